@@ -97,7 +97,7 @@ theorem nopanic_backup {st : St} (h : Inv st) : (backup st).2 ≠ .panic := by
     intro hc; cases hc
 
 theorem nopanic_restore {st : St} (h : Inv st) (b : Nat) (force : Bool) : (restore st b force).2 ≠ .panic := by
-  unfold restore
+  unfold restore restoreWith
   simp only
   by_cases g0 : b = 0
   · rw [if_pos g0]; intro hc; cases hc
@@ -234,5 +234,6 @@ theorem nopanic_step {st : St} (h : Inv st) (o : Op) (hf : o.faultFree = true) :
   | hmacVerify hd vm bm m => exact nopanic_hmacVerify st hd vm bm m
   | failPut k => cases hf
   | rawConfig d e => cases hf
+  | restoreRaw b f => cases hf
 
 end Obao.Transit
